@@ -463,7 +463,18 @@ class Scan:
                     pm = re.search(r"(\w+(?:\(\))?)\s*\.\s*$", pre)
                     if pm:
                         recv = pm.group(1)
-                if name in ("claimable_balances", "validate_payments", "apply_payments"):
+                if name == "now" and recv == "clock":
+                    # a clock read; remember the variable it is bound to (if any)
+                    lm = re.search(r"\blet\s+(?:mut\s+)?(\w+)\s*(?::[^=]+)?=\s*[\w\.\s]*$", body[stmt_start:i])
+                    close = match_close(body, m.end() - 1, "(", ")")
+                    pending.append((close, ("mark", "clock", lm.group(1) if lm else "")))
+                    pending.sort(key=lambda p: -p[0])
+                elif name == "insert" and recv.endswith("velocity_control"):
+                    close = match_close(body, m.end() - 1, "(", ")")
+                    arg = body[m.end():close].split(",")[0].strip()
+                    pending.append((close, ("mark", "vinsert", arg)))
+                    pending.sort(key=lambda p: -p[0])
+                elif name in ("claimable_balances", "validate_payments", "apply_payments"):
                     close = match_close(body, m.end() - 1, "(", ")")
                     pending.append((close, ("mark", name)))
                     pending.sort(key=lambda p: -p[0])
@@ -606,7 +617,7 @@ def ledger_paths(sc):
                 elif it[0] == "rel" and it[1] in guards:
                     del guards[it[1]]
                     ev.append(("rel", None))
-                elif it[0] == "mark":
+                elif it[0] == "mark" and it[1] in LEDGER_MARKS:
                     if not guards:
                         raise ExtractError("ledger step %s outside a node_state section in %s" % (it[1], name))
                     ev.append(("upd", it[1]))
@@ -619,6 +630,42 @@ def ledger_paths(sc):
                 "revoke_previous_holder_commitment"):
         if req not in res:
             raise ExtractError("ledger read-modify-write disappeared from Channel::" + req)
+    return res
+
+
+VELOCITY_FNS = ("add_invoice", "add_keysend", "check_onchain_tx")
+
+
+def velocity_time_facts(sc):
+    """For the functions that feed a velocity control: is the `insert` inside the node_state section,
+    is the last clock read before it inside that section too, and is the time argument of `insert` the
+    value of that read?  (A time read before the lock can be older than the control's window start
+    when requests overlap.)"""
+    src = sc.src["node"]
+    total = len(re.findall(r"velocity_control\s*\.\s*insert\s*\(", src))
+    res, seen = {}, 0
+    for name in VELOCITY_FNS:
+        bodies = sc.fns["node"].get(name)
+        if not bodies:
+            raise ExtractError("scanned function disappeared: node::" + name)
+        items = sc.walk("node", bodies[0][0])
+        guards, last_clock, facts = {}, None, []
+        for it in items:
+            if it[0] == "acq" and it[1] == "node_state":
+                guards[it[2]] = True
+            elif it[0] == "rel" and it[1] in guards:
+                del guards[it[1]]
+            elif it[0] == "mark" and it[1] == "clock":
+                last_clock = (it[2], bool(guards))
+            elif it[0] == "mark" and it[1] == "vinsert":
+                seen += 1
+                arg_ok = bool(last_clock and last_clock[0] and re.match(r"%s\b" % re.escape(last_clock[0]), it[2]))
+                facts.append((bool(guards), bool(last_clock and last_clock[1]), arg_ok))
+        if not facts:
+            raise ExtractError("no velocity control insert in node::" + name)
+        res[name] = tuple(all(f[k] for f in facts) for k in range(3))
+    if seen != total:
+        raise ExtractError("a velocity_control.insert site of node.rs is outside the scanned functions (%d of %d)" % (seen, total))
     return res
 
 
@@ -687,10 +734,17 @@ def extract(repo):
         es = ", ".join({"acq": ".acq .nodeState", "rel": ".rel .nodeState", "upd": ".upd .nodeState id"}[a] for a, _ in ev)
         rows.append('  ("%s", [%s])' % (name, es))
     L.append(",\n".join(rows) + "]")
+    vt = velocity_time_facts(sc)
+    L += ["",
+          "/-- functions feeding a velocity control: (insert inside the node_state section, the last clock",
+          "read before it is inside that section, the time argument of insert is that read) -/",
+          "def velocityTime : List (String × Bool × Bool × Bool) := [" +
+          ", ".join('("%s", %s, %s, %s)' % ((n,) + tuple("true" if b else "false" for b in v)) for n, v in vt.items()) + "]"]
     L += ["", "end VlsModel.Gen.LockTable", ""]
     facts = {k: {"edges": ["%s->%s" % e for e in table[k]["edges"]],
                  "path": " ".join(("+" if a == "acq" else "-") + c for a, c in table[k]["path"])} for k in kinds}
     facts["_ledger_sections"] = {n: " ".join(("+ns" if a == "acq" else "-ns" if a == "rel" else b) for a, b in ev) for n, ev in lp.items()}
+    facts["_velocity_time"] = {n: {"insert_under_lock": v[0], "clock_read_under_lock": v[1], "arg_is_that_read": v[2]} for n, v in vt.items()}
     facts["_scanned_functions"] = sorted(sc.scanned)
     facts["_recursion_cuts"] = sorted(sc.recursion_cuts)
     return {"LockTable.lean": "\n".join(L)}, {"C20": {"facts": {"lock_table": facts}, "obligations": [
